@@ -31,7 +31,7 @@ Qed.
 Lemma block_scope_local parent sc sel body os sc' :
   eval_node parent sc (NBlock sel body) = ROk (os, sc') -> sc' = sc.
 Proof.
-  cbn [eval_node]. match goal with |- context [rbind ?g _] => destruct g as [inner| | |] end; cbn [rbind]; try discriminate.
+  cbn [eval_node_g]. match goal with |- context [rbind ?g _] => destruct g as [inner| | |] end; cbn [rbind]; try discriminate.
   intros H. now injection H.
 Qed.
 
